@@ -74,6 +74,8 @@ var profiles = map[string]profile{
 			{name: "t0", admin: "create t0 (a,b) key()", ncols: 2, dom: []int{3, 2}, opt: []bool{true, true}},
 			{name: "t2", admin: "create t2 (p,q,r) key(p,q) index(r)", ncols: 3, dom: []int{2, 2, 2}, opt: []bool{false, true, true}},
 		}},
+	// many tables: table infos live in deeper nodes of the persistent metadata map
+	"wide": {name: "wide", clients: 4, trans: 40, maxOps: 3, readFrac: 30, persist: 5 * time.Millisecond, tables: wideTables(40)},
 	// index creation / removal on a populated table while transactions commit and the merger runs
 	"admin": {name: "admin", clients: 3, trans: 50, maxOps: 3, readFrac: 20, persist: 4 * time.Millisecond, admin: true,
 		tables: []tableDef{
@@ -109,6 +111,16 @@ var profiles = map[string]profile{
 			{name: "sc", admin: "create sc (ck,id) key(ck) index(id) in tg cascade", ncols: 2, dom: []int{4, 4}, opt: []bool{false, true}},
 			{name: "su", admin: "create su (uk,id) key(uk) index(id) in tg cascade update", ncols: 2, dom: []int{4, 4}, opt: []bool{false, true}},
 		}},
+}
+
+func wideTables(n int) []tableDef {
+	var ts []tableDef
+	for i := 0; i < n; i++ {
+		name := fmt.Sprintf("w%02d", i)
+		ts = append(ts, tableDef{name: name, admin: "create " + name + " (k,v) key(k) index(v)", ncols: 2,
+			dom: []int{3, 2}, opt: []bool{false, true}})
+	}
+	return ts
 }
 
 // ---------------------------------------------------------------- global state
